@@ -10,6 +10,7 @@ CHECKS = {
             {"name": "TestC05Mutations", "checks": [40, 800], "shards": [4, 16], "floor": 0.6},
             {"name": "TestC05Soup", "checks": [4000, 100000], "shards": [2, 16], "floor": 0.6},
             {"name": "TestC05Shapes", "enum": True},
+            {"name": "TestC05Fused", "enum": True},
             {"name": "TestC05Blobs", "enum": True},
             {"name": "TestC05AttrFlood", "enum": True},
             {"name": "FuzzParseRender", "fuzz": True, "fuzztime": [0, 150]},
